@@ -432,6 +432,18 @@ fn inherent_method_overlaps(
     }
 }
 
+/// Whether `method` is the name of a variant of the enum `for_ty`: `T::name(..)` is then the
+/// constructor, so a method of that name could only be called as `x.name(..)` and the two call
+/// forms would run different code.
+fn method_named_like_variant(env: &PackageTypeEnv, for_ty: &tast::Ty, method: &str) -> bool {
+    super::util::try_constr_name(for_ty).is_some_and(|constr| {
+        env.current()
+            .enums()
+            .get(&tast::TastIdent(constr))
+            .is_some_and(|def| def.variants.iter().any(|(variant, _)| variant.0 == method))
+    })
+}
+
 fn define_inherent_impl(
     env: &mut PackageTypeEnv,
     diagnostics: &mut Diagnostics,
@@ -522,6 +534,18 @@ fn define_inherent_impl(
                 Severity::Error,
                 format!(
                     "Method {} for {:?} overlaps a definition for the generic type or one of its instances",
+                    method_name_str, for_ty
+                ),
+            ));
+            continue;
+        }
+
+        if method_named_like_variant(env, &for_ty, &method_name_str) {
+            diagnostics.push(Diagnostic::new(
+                Stage::Typer,
+                Severity::Error,
+                format!(
+                    "Method {} of {:?} has the name of one of its variants",
                     method_name_str, for_ty
                 ),
             ));
